@@ -53,9 +53,12 @@ func init() {
 	for _, c := range [][]int64{{3, 4, 1}, {1, 2, 2}, {4, 0, 1}} {
 		add(&quick, "ZZ_C08_Variable", b, c...)
 	}
+	for _, k := range []int64{0, 1} {
+		add(&quick, "ZZ_C08_Packet", "two packets of 1..3 symbolic bytes through one packet codec instance; the first delivery fails (downstream handler panics / transport error mid-packet)", k)
+	}
 	Specs["C08"] = &Spec{
 		Jobs: jobsBy(quick, thorough),
-		MustReach: []string{"c08-fresh-after-reject", "c08-lf-short-header", "c08-lf-invalid-length", "c08-lf-truncated", "c08-lf-complete",
+		MustReach: []string{"c08-fresh-after-reject", "c08-packet-done", "c08-lf-short-header", "c08-lf-invalid-length", "c08-lf-truncated", "c08-lf-complete",
 			"c08-varint-bad-header", "c08-varint-oversized", "c08-varint-truncated", "c08-varint-complete",
 			"c08-delim-missing", "c08-delim-complete", "c08-fixed-truncated", "c08-fixed-complete", "c08-variable-eos", "c08-variable-done"},
 		Bounds: map[string]string{
